@@ -35,7 +35,11 @@ def install(ctx):
     probe.attach(Fitter, 'fit', ensure=fit_post)
 
 
-def distance_range(rng, step):
+def distance_range(rng, step, exact=False):
+    if exact:
+        # ends that are exact powers of ten, with a dyadic step: the width is an exact multiple of the step in any arithmetic
+        a = int(rng.integers(-2, 2))
+        return float(10.0 ** a), float(10.0 ** (a + int(rng.integers(1, 3)))), 'exact-multiple'
     dmin = float(gen.loguniform(rng, 0.05, 20.0))
     kind = str(rng.choice(['equal', 'substep', 'multiple', 'wide', 'wide', 'narrow']))
     if kind == 'equal':
@@ -59,12 +63,12 @@ def run(ctx):
                 'multiples, beyond-table apertures; pc/kpc/cm) x sources; a case = one Fitter construction (grid+flux oracle) or one '
                 'Fitter.fit (optimum oracle); non-trivial = grid checked against truth with >=1 model')
     ctx.assume('oracle: python/longdouble aperture interpolation, inverse-square scaling and per-distance bounded 1-parameter fit from package truth',
-               'distance-grid size when L/step is an integer to 1e-9: n or n+1 accepted',
+               'distance-grid size when L/step is an integer to 1e-9: n or n+1 accepted, except when the ends are exact powers of ten and the step is a dyadic fraction (then L/step is exact in any arithmetic and the count must be L/step+1)',
                'theta*dmin is kept >= 1e-6 relative away from the smallest tabulated aperture (unit round trips may land 1 ulp either side)',
                'float32 memmap compared with a bound of 3e-7*(1+max|log10 F|) dex; float32 (1E) tables with 1e-7 dex (scipy interpolates them in float32)',
                'chi^2 ties between distances: any minimiser accepted')
     ctx.require_events('Fitter.__init__:post', 'Fitter.fit:post', 'grid_checked')
-    ctx.require_regimes('limit_penalised', 'unit:flux-not-mJy', 'apertures:per-band-tables', 'n=1', 'n=2', 'n>2', 'beyond_table', 'av_clipped', 'av_interior', 'best_first', 'best_mid',
+    ctx.require_regimes('range:exact-multiple-of-step', 'limit_penalised', 'unit:flux-not-mJy', 'apertures:per-band-tables', 'n=1', 'n=2', 'n>2', 'beyond_table', 'av_clipped', 'av_interior', 'best_first', 'best_mid',
                         'best_last', 'style:v1', 'style:v2name', 'style:v2wav', 'memmap_on', 'memmap_off', 'unit:pc', 'unit:cm', 'angle:arcmin', 'angle:deg')
     n_pkg = 14 if ctx.quick else 160
     n_rng = 3
@@ -78,7 +82,7 @@ def run(ctx):
         wav = gen.band_wavelengths(rng, n_bands)
         style = ['v1', 'v2name', 'v2wav', 'v1'][(ip + ctx.shard) % 4] if ip < 8 else str(rng.choice(['v1', 'v2name', 'v2wav']))
         fmt = str(rng.choice(['D', 'E']))
-        step = float(rng.choice([0.01, 0.02, 0.025, 0.05, 0.1, 0.3]))
+        step = float(rng.choice([0.01, 0.02, 0.025, 0.05, 0.1, 0.3])) if ip % 4 != 3 else float(rng.choice([0.125, 0.25, 0.5, 1.0]))      # (dyadic steps: see 'exact-multiple')
         aps = gen.aperture_table(rng, n_ap)
         conv = gen.conv_grid(rng, n_models, n_bands, n_ap=n_ap)
         if fmt == 'E':
@@ -129,7 +133,10 @@ def run(ctx):
             continue
 
         for ir in range(n_rng):
-            dmin, dmax, kind = distance_range(rng, step)
+            exact = step in (0.125, 0.25, 0.5, 1.0) and ir == 0
+            dmin, dmax, kind = distance_range(rng, step, exact=exact)
+            if exact:
+                ctx.regime('range:exact-multiple-of-step')
             # apertures: theta such that theta*dmin_pc sits inside the table, some pushing beyond a_max at dmax
             theta = np.zeros(n_bands)
             for f in range(n_bands):
@@ -141,7 +148,7 @@ def run(ctx):
                 else:
                     a_at_dmin = float(gen.loguniform(rng, aps[0] * 1.001, aps[-1]))
                 theta[f] = max(a_at_dmin, aps[0] * (1 + 2e-6)) / (dmin * 1000.0)
-            unit = rng.choice(['kpc', 'pc', 'cm'])
+            unit = rng.choice(['kpc', 'pc', 'cm']) if not exact else 'kpc'          # (a unit conversion would spoil the exact ends)
             ctx.regime('unit:' + str(unit))
             dunit = {'kpc': u.kpc, 'pc': u.pc, 'cm': u.cm}[str(unit)]
             dr_q = (np.array([dmin, dmax]) * u.kpc).to(dunit)
@@ -183,7 +190,7 @@ def run(ctx):
             # the unit round trip of the apertures is part of "theta": use the values the user's quantity converts back to
             theta = np.asarray((theta * u.arcsec).to(aunit).to(u.arcsec).value, float)
             dist = np.asarray(fitter.models.distances.to(u.kpc).value, float)
-            gok = fitcheck.check_distance_grid(ctx, dist, dmin_k, dmax_k, step, wit0)
+            gok = fitcheck.check_distance_grid(ctx, dist, dmin_k, dmax_k, step, wit0, exact=exact)
             ctx.event('grid_checked')
             n = len(dist)
             ctx.regime('n=1' if n == 1 else ('n=2' if n == 2 else 'n>2'))
